@@ -1,0 +1,28 @@
+//go:build verif
+
+package tensor
+
+// Contracts for the block-copying repeat kernel (C10). Comment-only.
+//
+// fastCopyDenseRepeat walks the source in blocks of `stride` elements: block j of outer slice i is read at element
+// position (i*size + j)*stride and written repeats[j] times. The contract pins the read position (the loop invariants):
+// a change that lets the source position fall behind or run ahead of the block counter fails `inv_keep`. The write
+// position (a prefix sum of the repeat counts) and the copied bytes are not specified here (storage.Copy and the
+// builtin copy are the trusted primitives that move them). Slice bounds inside the kernel are not obligations here
+// (`config bounds unchecked`): they depend on prefix sums of the repeat counts; the contract speaks about executions
+// that do not panic.
+
+//@ func tensor.StdEng.fastCopyDenseRepeat
+//@   props C10
+//@   config devirt tensor.DenseTensor=*tensor.Dense
+//@   config panics allowed
+//@   config bounds unchecked
+//@   config frame any
+//@   let blk = size * stride
+//@   requires [dyn] typeis(src, "*tensor.Dense")
+//@   requires [sizes] outers >= 0 && size >= 0 && stride >= 1 && newStride >= 1 && len(repeats) >= size
+//@   requires [counts] forall j :: 0 <= j && j < size ==> repeats[j] >= 0
+//@   ensures [ok] result == nil
+//@   loop 0 invariant [src_pos] 0 <= i && srcStart == i * blk
+//@   loop 1 invariant [src_pos] 0 <= sz && sz <= size && srcStart == i * blk + sz * stride
+//@   loop 3 invariant [src_pos] 0 <= j && j <= size && srcStart == i * blk + j * stride
